@@ -106,6 +106,9 @@ class LoopStatement:
             if not iterations.is_integer():
                 raise JaqalError(f"Loop count {iterations} is not an integer.")
             iterations = int(iterations)
+        elif hasattr(iterations, "resolve_qubit"):
+            # a register, a register alias or a qubit
+            raise JaqalError(f"Loop count {iterations} is not a number.")
         self._iterations = iterations
         if statements is None:
             self._statements = BlockStatement()
